@@ -383,6 +383,10 @@ func muxHarness(rc *RunCtx) {
 				c := &muxCall{id: len(m.calls), caller: i}
 				c.tag = fmt.Sprintf("t%d", c.id)
 				c.timeout = muxTimeouts[tp.Intn("cfg", len(muxTimeouts))]
+				if k := tp.Intn("oddtmo", 4); k == 3 {
+					// timeouts that are not a multiple of any convenient polling interval
+					c.timeout = []time.Duration{300 * time.Millisecond, 620 * time.Millisecond, 1234 * time.Millisecond, 77 * time.Millisecond, 2*time.Second + 1*time.Millisecond}[tp.Intn("oddtmo", 5)]
+				}
 				if rc.Prop == "C13" && tp.Bool("cfg", 1, 5) {
 					c.oneway = true
 				}
@@ -608,7 +612,14 @@ func (m *muxState) onRequest(frame []byte) {
 	case 3:
 		c.plan = "late"
 		m.rc.Fault("late-response")
-		respond("late", c.opid, c.tag, c.timeout+time.Duration(1+tp.Intn("peer", 50))*time.Millisecond, c)
+		lateBy := time.Duration(1+tp.Intn("peer", 50)) * time.Millisecond
+		if tp.Intn("atdeadline", 3) == 2 {
+			// the response becomes readable in the very instant the deadline passes (either outcome is fine for
+			// this call; what it leaves behind for the next one is another matter)
+			lateBy = 0
+			m.rc.Fault("response-at-the-deadline-instant")
+		}
+		respond("late", c.opid, c.tag, c.timeout+lateBy, c)
 	case 4:
 		c.plan = "once+unknown-opid"
 		m.rc.Fault("unknown-opid-frame")
